@@ -55,6 +55,8 @@ func (p *vMapProxy) Contains(ctx context.Context, kind cache.EntryKind, hash str
 	return true, osz
 }
 
+var vFMBound = 30 * time.Second
+
 func TestVerifFindMissing(t *testing.T) {
 	rec := vNewRecorder(t, "findmissing")
 	defer rec.Close(t)
@@ -257,7 +259,16 @@ func TestVerifFindMissing(t *testing.T) {
 			ffReq[i] = &pb.Digest{Hash: d.Hash, SizeBytes: d.SizeBytes}
 		}
 		ffErr := c.findMissingCasBlobsInternal(context.Background(), ffReq, true)
-		got, err := c.FindMissingCasBlobs(context.Background(), req)
+		// the request has no deadline of its own in production; here a bound makes a walk that never
+		// ends (a back-end check whose completion is never signalled) a reported failure instead of a hang
+		fmCtx, fmCancel := context.WithTimeout(context.Background(), vFMBound)
+		got, err := c.FindMissingCasBlobs(fmCtx, req)
+		hung := fmCtx.Err() != nil
+		fmCancel()
+		if hung {
+			vFMBound = 2 * time.Second
+			cs.Violation("C10,C14", "fm.hang", fmt.Sprintf("FindMissingCasBlobs did not answer within its bound (err %v): the walk waits for a back-end check that never reports completion", err), strings.Join(spec, ","))
+		}
 		close(stop)
 		wg.Wait()
 		var gotToks []string
